@@ -1754,6 +1754,70 @@ func genKway(repo, out string) {
 	}
 }
 
+// genCodec: table/data.go — Data.Encode
+func genCodec(repo, out string) {
+	p := parseDir(repo + "/table")
+	var sb strings.Builder
+	sb.WriteString("import Originium.Model.Codec\n")
+	sb.WriteString("/-! GENERATED by /verif/extract (gotrans.go) from /repo/table/data.go on every check run. Do not edit.\n")
+	sb.WriteString("    `Data.Encode`: `buf` is the staging buffer (a list of bytes; `bufferpool.Pool.Get` returns it empty, the error writer's\n")
+	sb.WriteString("    `w.Write(binary.LittleEndian, x)` appends the little-endian bytes of `x` and cannot fail on a bytes.Buffer), `utils.LCP` is\n")
+	sb.WriteString("    the model's `Codec.lcp`, `uint16(n)` / `uint64(n)` written little-endian are `Codec.encLE 2 n` / `Codec.encLE 8 n`, `comp x` is\n")
+	sb.WriteString("    `utils.Compress` followed by `bytes.Clone`.  `Model/CodecTie.lean` proves it equal to the model's `encodeData`. -/\n")
+	sb.WriteString("set_option linter.unusedVariables false\nnamespace GenCodec\nopen Codec\n\n")
+	fd := findFunc(p, "Data", "Encode")
+	w := func(arg, lean string) (string, func(string) string) {
+		return "w.Write(binary.LittleEndian, " + arg + ")", func(tail string) string { return "(let buf := buf ++ " + lean + "; " + tail + ")" }
+	}
+	wraps := map[string]func(string) string{}
+	for _, kv := range [][2]string{{"uint16(lcp)", "encLE 2 lcp"}, {"uint16(len(suffix))", "encLE 2 suffix.length"}, {"[]byte(suffix)", "suffix"},
+		{"uint16(len(entry.Value))", "encLE 2 entry.value.length"}, {"entry.Value", "entry.value"}, {"tombstone", "[tombstone]"}, {"version", "encLE 8 version"}} {
+		k, f := w(kv[0], kv[1])
+		wraps[k] = f
+	}
+	sp := transSpec{
+		leanName: "encodeData",
+		binders:  "(comp : Bytes → Bytes) (entries : List Entry)",
+		retType:  "Option Bytes",
+		exprMap: map[string]string{"d.Entries": "entries", "utils.LCP(entry.Key, prevKey)": "(Codec.lcp entry.key prevKey)", "entry.Key[lcp:]": "(entry.key.drop lcp)",
+			"len(entry.Key) > math.MaxUint16 || len(entry.Value) > math.MaxUint16": "(decide (65535 < entry.key.length) || decide (65535 < entry.value.length))",
+			"uint8(0)": "(0 : UInt8)", "entry.Tombstone": "entry.tomb", "uint64(entry.Version)": "entry.version", "w.Error() != nil": "false", "w.Error()": "WERR", "ErrEntryTooLarge": "ERR",
+			"entry.Key": "entry.key", "err != nil": "err", "bytes.Clone(compressed.Bytes())": "(comp buf)"},
+		state: []string{"prevKey", "tombstone", "buf"}, stateLn: []string{"prevKey", "tombstone", "buf"}, stateTy: []string{"Bytes", "UInt8", "Bytes"},
+		zero:  map[string]string{"string": "([] : Bytes)"},
+		binds: map[string][][2]string{"bufferpool.Pool.Get()": {}, "utils.Compress(buf, compressed)": {{"err", "false"}}},
+		wraps: wraps,
+		skipStmt: func(st ast.Stmt) bool {
+			s := goStr(st)
+			return strings.HasPrefix(s, "defer bufferpool.Pool.Put(") || s == "w := utils.NewErrorWriter(buf)"
+		},
+		ret: func(vals []string, st []string) string {
+			if len(vals) == 2 && vals[1] == "nil" {
+				return "some " + vals[0]
+			}
+			return "none"
+		},
+		fallOff:  func(st []string) string { return "none" },
+		panicVal: "none",
+	}
+	d := ""
+	err := fmt.Errorf("Data.Encode not found")
+	if fd != nil {
+		t := &translator{spec: sp}
+		body := t.stmts(fd.Body.List, func() string { return "none" }, "", "")
+		err = t.err
+		d = fmt.Sprintf("def %s %s : %s :=\n  let prevKey : Bytes := []\n  let tombstone : UInt8 := 0\n  let buf : Bytes := []\n  %s\n", sp.leanName, sp.binders, sp.retType, body)
+	}
+	if err != nil {
+		d = fmt.Sprintf("/-- UNTRANSLATABLE: %s -/\ndef encodeData : Unit := ()\n", strings.ReplaceAll(err.Error(), "-/", "- /"))
+	}
+	sb.WriteString(d + "\n")
+	sb.WriteString("end GenCodec\n")
+	if err := os.WriteFile(out, []byte(sb.String()), 0644); err != nil {
+		panic(err)
+	}
+}
+
 // genWal: wal/wal.go — WAL.Write
 func genWal(repo, out string) {
 	p := parseDir(repo + "/wal")
